@@ -15,8 +15,9 @@ func init() {
 			"(R03.3) base.IsValidVoteproof tests duplicate sign nodes, vote result, every sign fact's validity and point, majority present; " +
 			"(R03.4) NewSuffrageWithExpels requires every expel's node signs to reach the threshold count and removes exactly the expelled nodes; " +
 			"(R03.5) expel/stuck voteproofs reject duplicate expel nodes and expelled voters; an expel's node signs exclude the expelled node's own; " +
-			"(R03.6) all six concrete voteproof IsValid reach base.IsValidVoteproof; (R03.7) IsValidExpelWithSuffrage tests expiry, membership of the expelled node and every signer's key.",
-		NotDecided: "the quorum-intersection arithmetic itself (that these tests suffice for every n, t, equivocator set) — in particular NewSuffrageWithExpels lowers the per-expel threshold to n-k without bounding k, which no structural rule decides; signature cryptography.",
+			"(R03.6) all six concrete voteproof IsValid reach base.IsValidVoteproof; (R03.7) IsValidExpelWithSuffrage tests expiry, membership of the expelled node and every signer's key; " +
+			"(R03.8) the per-expel sign count in NewSuffrageWithExpels is compared with the full threshold count of the unreduced suffrage (violated today by the n-k lowering: known finding).",
+		NotDecided: "the quorum-intersection arithmetic itself (that these tests suffice for every n, t, equivocator set) — R03.8 is the one arithmetic fact encoded, found by a reproducer, not derived by the checker; signature cryptography.",
 		Run:        runC03,
 	})
 }
@@ -127,15 +128,31 @@ func runC03(c *Ctx) {
 	c.Rule("R03.4", "MustPass")
 	if fn := c.Need("isaac.NewSuffrageWithExpels"); fn != nil {
 		loop := "(ι < len(expels))"
-		c.ForEach(fn, "each expel: node signs reach the threshold count", loop, 1,
-			GCmp("len(expels[ι].NodeSigns())", ">=", "φ((suf.Len() - len(expels))|threshold.Threshold(suf.Len()))"))
+		full := "threshold.Threshold(suf.Len())"
+		lowered := "φ((suf.Len() - len(expels))|" + full + ")"
+		bound := expelSignBound(c, fn)
+		switch bound {
+		case full, lowered:
+			c.ForEach(fn, "each expel: node signs reach the threshold count", loop, 1,
+				GCmp("len(expels[ι].NodeSigns())", ">=", globEscape(bound)))
+		default:
+			c.Report(fn, "each expel: node signs reach the threshold count", fn.Pos(), false, "bound of the per-expel sign count: "+bound)
+		}
 		filtered := c.ReturnsD(fn, 0, "isaac.NewSuffrage(util.Filter2Slices(suf.Nodes(), expels, func:isaac.NewSuffrageWithExpels$1))#0")
 		c.Exists(fn, "result is the suffrage without the expelled nodes", filtered, 1)
 		c.MPFrom(fn, nil, "reduced suffrage: loop ran to completion", filtered, 1, GLoopDone(loop))
-		// th is lowered only when the number of expels exceeds n - threshold
-		c.Report(fn, "threshold lowered only when len(expels) > n - Threshold(n)", fn.Pos(),
-			len(c.condsMatching(fn, "(len(expels) > (suf.Len() - threshold.Threshold(suf.Len())))")) == 1,
-			"the controlling condition of the lowered threshold")
+		if bound == lowered {
+			// th is lowered only when the number of expels exceeds n - threshold
+			c.Report(fn, "threshold lowered only when len(expels) > n - Threshold(n)", fn.Pos(),
+				len(c.condsMatching(fn, "(len(expels) > (suf.Len() - threshold.Threshold(suf.Len())))")) == 1,
+				"the controlling condition of the lowered threshold")
+		}
+		// R03.8: the quorum-intersection argument needs every expel to carry a full quorum of signs
+		// of the unreduced suffrage; a bound below Threshold(n) lets disjoint signer sets each cut
+		// the suffrage down to themselves and produce conflicting 100%-voteproofs with no equivocator.
+		c.Rule("R03.8", "Dependence")
+		c.Report(fn, "per-expel sign bound is the full threshold count: "+bound, fn.Pos(), bound == full, "bound of the per-expel sign count")
+		c.Rule("R03.4", "MustPass")
 		if cl := c.Need("isaac.NewSuffrageWithExpels$1"); cl != nil {
 			c.Exists(cl, "filter matches the expelled node's address", c.ReturnsD(cl, 0, "x.Address().Equal(y.ExpelFact().Node())"), 1)
 		}
@@ -220,6 +237,25 @@ func runC03(c *Ctx) {
 			GTrue("suf.ExistsPublickey(expel.NodeSigns()[ι].Node(), expel.NodeSigns()[ι].Signer())"))
 		c.MP(fn, "success: sign loop ran to completion", succ, 1, GLoopDone(loop))
 	}
+}
+
+// expelSignBound: the descriptor of the value every expel's node-sign count is compared with in
+// NewSuffrageWithExpels ("?" when the comparison is not found or ambiguous).
+func expelSignBound(c *Ctx, fn *ssa.Function) string {
+	out := "?"
+	n := 0
+	for _, in := range c.condsMatching(fn, "(len(expels[ι].NodeSigns()) * *)") {
+		b, ok := in.(*ssa.If).Cond.(*ssa.BinOp)
+		if !ok {
+			continue
+		}
+		n++
+		out = c.D(b.Y)
+	}
+	if n != 1 {
+		return "?"
+	}
+	return out
 }
 
 // condsMatching lists If instructions whose condition descriptor matches.
